@@ -318,6 +318,9 @@ func runReg(c caseIn) *caseOut {
 			switch {
 			case treg != nil:
 				tc := session.NewTunnelConnection(cid(id), nil, nil, "tcp")
+				if len(op) > 3 && op[3] > 0 { // the second leg / a re-dial of tunnel op[3]: a TunnelID that may already be registered
+					tc.TunnelID = fmt.Sprintf("t%d", op[3])
+				}
 				err = treg.Register(tc)
 			case creg != nil:
 				cc := session.NewControlConnection(cid(id), nil, nil, "tcp")
@@ -450,7 +453,7 @@ func runRegRace(c caseIn) *caseOut {
 	for t := 0; t < c.Trials; t++ {
 		var treg *session.TunnelRegistry
 		var creg *session.ClientRegistry
-		if c.Kind == "tunnel" {
+		if c.Kind == "tunnel" || c.Kind == "tunnel-tid" {
 			treg = session.NewTunnelRegistry(&session.TunnelRegistryConfig{MaxTunnels: c.Max})
 		} else {
 			creg = session.NewClientRegistry(&session.ClientRegistryConfig{MaxConnections: c.Max})
@@ -463,7 +466,11 @@ func runRegRace(c caseIn) *caseOut {
 		}
 		for k := 0; k < c.Pre; k++ {
 			if treg != nil {
-				treg.Register(session.NewTunnelConnection(cid(1000+k), nil, nil, "tcp"))
+				tc := session.NewTunnelConnection(cid(1000+k), nil, nil, "tcp")
+				if c.Kind == "tunnel-tid" {
+					tc.TunnelID = fmt.Sprintf("t%d", k)
+				}
+				treg.Register(tc)
 			} else {
 				cc := session.NewControlConnection(cid(1000+k), nil, nil, "tcp")
 				cc.CreatedAt = epoch.Add(time.Duration(k) * time.Second)
@@ -497,7 +504,11 @@ func runRegRace(c caseIn) *caseOut {
 				<-start
 				var err error
 				if treg != nil {
-					err = treg.Register(session.NewTunnelConnection(cid(1+i), nil, nil, "tcp"))
+					tc := session.NewTunnelConnection(cid(1+i), nil, nil, "tcp")
+					if c.Kind == "tunnel-tid" && c.Pre > 0 { // a NEW ConnID carrying the TunnelID of a registered tunnel
+						tc.TunnelID = fmt.Sprintf("t%d", i%c.Pre)
+					}
+					err = treg.Register(tc)
 				} else {
 					cc := session.NewControlConnection(cid(1+i), nil, nil, "tcp")
 					cc.CreatedAt = epoch.Add(time.Duration(100+i) * time.Second)
@@ -522,19 +533,19 @@ func runRegRace(c caseIn) *caseOut {
 		out.Admitted = append(out.Admitted, int(ok.Load()))
 		out.Final = final
 		if c.Max > 0 && (int(peak.Load()) > c.Max || final > c.Max) {
-			out.fail(c.Kind+"-cap", fmt.Sprintf("limit %d, %d pre-registered, %d concurrent Register: peak %d, final %d", c.Max, c.Pre, c.N, peak.Load(), final))
+			out.fail(strings.TrimSuffix(c.Kind, "-tid")+"-cap", fmt.Sprintf("limit %d, %d pre-registered, %d concurrent Register (%s): peak %d, final %d", c.Max, c.Pre, c.N, c.Kind, peak.Load(), final))
 		}
 		want := c.Pre + c.N
 		if c.Max > 0 && want > c.Max {
 			want = c.Max
 		}
 		if final != want {
-			out.fail(c.Kind+"-final-count", fmt.Sprintf("limit %d, %d pre-registered, %d concurrent Register: final count %d, expected %d", c.Max, c.Pre, c.N, final, want))
+			out.fail(strings.TrimSuffix(c.Kind, "-tid")+"-final-count", fmt.Sprintf("limit %d, %d pre-registered, %d concurrent Register (%s): final count %d, expected %d", c.Max, c.Pre, c.N, c.Kind, final, want))
 		}
-		if c.Kind == "tunnel" && int(ok.Load()) != want-c.Pre {
+		if treg != nil && int(ok.Load()) != want-c.Pre {
 			out.fail("tunnel-accepted-count", fmt.Sprintf("%d registrations accepted, %d free slots", ok.Load(), want-c.Pre))
 		}
-		if c.Kind != "tunnel" && int(ok.Load()) != c.N {
+		if treg == nil && int(ok.Load()) != c.N {
 			out.fail("control-refused-valid", fmt.Sprintf("%d of %d control registrations accepted (the control cap evicts, it never refuses)", ok.Load(), c.N))
 		}
 	}
@@ -770,6 +781,7 @@ type fakeClient struct {
 	ctx       context.Context
 	userQuota int
 	barrier   atomic.Pointer[spinBarrier]
+	quotaFail atomic.Bool // GetUserQuota() fails (quota service unreachable) while set
 	mu        sync.Mutex
 	peers     []net.Conn
 }
@@ -801,6 +813,9 @@ func (f *fakeClient) GetUserQuota() (*models.UserQuota, error) {
 				runtime.Gosched()
 			}
 		}
+	}
+	if f.quotaFail.Load() {
+		return nil, errors.New("verif: quota service unreachable")
 	}
 	return &models.UserQuota{MaxConnections: f.userQuota}, nil
 }
@@ -990,6 +1005,7 @@ func runMapSeq(c caseIn) *caseOut {
 	ad := &fakeAdapter{}
 	h, fc := newHandler(ctx, c, ad)
 	defer h.Close()
+	countsHolders := c.Pre == 0 // python sets pre=1 on a tree whose counter only covers connections being set up (pre-5fae32e)
 	ecm := &earlyCloseManager{}
 	h.VerifWrapTunnelManager(func(real tunnel.TunnelManager) tunnel.TunnelManager {
 		ecm.TunnelManager = real
@@ -1002,10 +1018,13 @@ func runMapSeq(c caseIn) *caseOut {
 	live := 0
 	for _, op := range c.Ops {
 		res := 0
-		if op[0] == 0 {
+		if op[0] == 0 || op[0] == 3 {
 			lc := &localConn{closed: make(chan struct{})}
 			conns = append(conns, lc)
+			// [3]: the user-quota lookup fails for this arrival only (limit source = user quota: the limit is unknown to it)
+			fc.quotaFail.Store(op[0] == 3)
 			h.VerifHandleConnection(lc) // returns after tun.Start() or after a refusal
+			fc.quotaFail.Store(false)
 			select {
 			case <-lc.closed:
 				state = append(state, 2)
@@ -1069,7 +1088,12 @@ func runMapSeq(c caseIn) *caseOut {
 			// no arrival is in flight here: slots may only be held by live tunnels
 			out.fail("mapping-slot-leak", fmt.Sprintf("activeConnCount=%d but only %d tunnels of the mapping are live after %v", got, live, op))
 		}
-		if c.Max > 0 && live > c.Max {
+		if got := h.VerifActiveConnCount(); got >= 0 && got < live && countsHolders {
+			// every live tunnel holds a slot: nobody may be let through uncounted (not even during a quota fault)
+			out.fail("mapping-slot-not-counted", fmt.Sprintf("activeConnCount=%d but %d tunnels of the mapping are live after %v: a connection was admitted without taking a slot", got, live, op))
+		}
+		// the cap binds admissions decided against a KNOWN limit; an arrival during a quota fault is let through (and counted)
+		if c.Max > 0 && live > c.Max && res == 1 && op[0] == 0 {
 			out.fail("mapping-cap-live", fmt.Sprintf("MaxConnections=%d but %d tunnels of the mapping are live after %v", c.Max, live, op))
 		}
 	}
